@@ -12,19 +12,19 @@ CHECKS = {
          "TLA+ acceptor (CmdLine.tla: HelpWins/HelpSticky) model-checked with TLC; replay of all states; trace validation", "6 (C10)"),
  "C03": (MC, "SwapCommutes (exchange of two neighbouring occurrences feeding different fields leaves the outcome unchanged) is an invariant checked by TLC in every reachable state of CmdLine.tla; all lines (hence all permutations up to the bound) are replayed into the real parser; a driver compares every generated sentence with re-interleavings on the real parser and TLC validates all recorded outcomes.",
          "TLA+ invariant SwapCommutes model-checked with TLC; replay of all states; metamorphic driver + trace validation", "6 (C03)"),
- "C05": (MC, "ExactlyOnce (each typed item is stored in exactly one accumulator or the line is dead), AllDelivered and NoResurrection are checked by TLC on CmdLine.tla; every line up to the bound - every accepted line with every single insertion/duplication - is replayed and the value compared exactly; driver lines validated by TLC.",
+ "C05": (MC, "ExactlyOnce (each typed item is stored in exactly one accumulator or the line is dead), AllDelivered and NoResurrection are checked by TLC on CmdLine.tla; every line up to the bound - every accepted line with every single insertion/duplication - is replayed and the value compared exactly; driver lines validated by TLC; the repository's own test-suite and random lines over generic parser trees beyond the acceptors are run with the hooks on and judged by the ledger protocol (LedgerTrace.tla) alone.",
          "TLA+ action property ExactlyOnce + invariants model-checked with TLC; replay of all states; trace validation", "6 (C05)"),
  "C06": (MC, "CmdLine.tla's Finish distinguishes absent from invalid per arity; TLC enumerates all lines over {valid, guard-failing, unconvertible} values under every arity and nesting; replay compares class/value and requires the message to carry the conversion or guard text whenever the specification accepts the repaired line; `catch` (the documented exception) and environment-backed members of choices are part of the model.",
          "TLA+ acceptor model-checked with TLC; replay of all states with carried-text oracle; trace validation", "6 (C06)"),
  "C08": (MC, "Command trees of depth <= 3 (aliases, optional commands, leaf positionals); ScopeAfterCommand and HelpSticky checked by TLC; all lines up to the bound replayed incl. misplacements, unknown commands, help after each name (help path compared); TreeLine.tla composes CmdLine and GroupLine (commands whose own level holds choices and adjacent groups): TScope states that the command's part of the outcome is its level run on its own on the items after the name; all lines replayed, hook events validated.",
          "TLA+ acceptor (frames per entered command) model-checked with TLC; replay of all states; trace validation", "6 (C08)"),
- "C09": (MC, "DashDash action property checked by TLC; 0..3 positionals of every strictness/arity, all lines up to the bound with `--` at every position and dash-looking data on both sides, replayed with exact values.",
+ "C09": (MC, "DashDash action property checked by TLC; 0..3 positionals of every strictness/arity, all lines up to the bound with `--` at every position and dash-looking data on both sides, replayed with exact values; defaulted positionals (`fallback`, `fallback_with`) of every strictness.",
          "TLA+ acceptor (posOnly, strictness in Finish) model-checked with TLC; replay of all states; trace validation", "6 (C09)"),
  "C18": (MC, "Environment states are part of the initial states of CmdLine.tla (every assignment of {unset, valid, unconvertible, guard-failing, non-UTF-8} to the declared variables); Finish consults a variable only when the item has no occurrence on the line; all (environment, line) states replayed with the process environment set accordingly, each also with an undeclared variable set; GroupLine.tla does the same for environment-backed members of the branches of a choice.",
          "TLA+ acceptor with environment in the initial states, model-checked with TLC; replay of all states; trace validation", "6 (C18)"),
  "C07": (MC, "GroupLine.tla gives choices a declarative denotation (owners; greedy leftmost rounds for repeated choices); TLC enumerates all lines up to the bound over 2..4-branch choices under bare/optional/many/some, checks AltExclusive, and every state is replayed with exact values; driver lines validated by TLC (GroupLineTrace); the same choices inside subcommands (TreeLine.tla), where the scope does not start at the first item.",
          "TLA+ acceptor GroupLine.tla (choice denotation) model-checked with TLC; replay of all states; trace validation", "6 (C07)"),
- "C19": (MC, "GroupLine.tla models adjacent groups as blocks opened by the group's first item, filled by members, closed by anything else; AdjContiguous and CutKills are checked by TLC; all lines up to the bound (blocks at every position, split, cut, `--`/help inside) are replayed with exact values; driver lines validated by TLC; the same groups and adjacent subcommands inside ordinary subcommands (TreeLine.tla); which command a help request describes.",
+ "C19": (MC, "GroupLine.tla models adjacent groups as blocks opened by the group's first item, filled by members, closed by anything else; AdjContiguous and CutKills are checked by TLC; all lines up to the bound (blocks at every position, split, cut, `--`/help inside) are replayed with exact values; driver lines validated by TLC; the same groups and adjacent subcommands inside ordinary subcommands (TreeLine.tla); which command a help request describes; adjacent groups nested inside adjacent subcommands or choices are judged by the ledger protocol alone (blocks contiguous, scopes restored).",
          "TLA+ acceptor GroupLine.tla (block automaton) model-checked with TLC; replay of all states; trace validation", "6 (C19)"),
  "C02": (MC, "RespellStutters (every other spelling of an attached occurrence - other name, `=`, glued, detached - gives the same outcome) is an invariant checked by TLC in every state; the alphabet contains all five spellings x hostile byte values x name kinds, clusters of 2..3; all states replayed and values compared byte-exactly (bytes travel percent-encoded through TLC); the tokeniser alone is compared with Lex.tla (contract over bytes, design-checked) on every byte string up to length 4 [5] over a 9-byte alphabet through the tokens hook.",
          "TLA+ invariant RespellStutters model-checked with TLC; replay of all states with byte-exact values; trace validation", "6 (C02)"),
@@ -38,13 +38,13 @@ CHECKS = {
          "TLA+ Listing (HelpModel.tla) evaluated by TLC on tokenised real help output of every command level", "6 (C12)"),
  "C16": ("exploration", "Definitions whose texts carry roff/HTML/markdown metacharacters are rendered with render_markdown/html/manpage; per document TLC checks token coverage of every reachable level against Listing (HelpModel.tla) and accepts or rejects the lexed tag stream (pushdown over bpaf's tag vocabulary, balanced, no stray `<`) and the roff line stream (control lines are bpaf's requests, every backslash one of bpaf's escapes) with Markup.tla.",
          "TLA+ acceptors (Markup.tla pushdown / line machine, HelpModel.tla listing) validating lexed real documents", "6 (C16)"),
- "C13": ("exploration", "Wrap.tla is an acceptor of console renderings (content with whitespace removed equals the unwrapped rendering; for widths >= 40 every line fits in width+2, is preformatted, or holds a single word after its indentation/definition term); WrapDesign model-checks that the greedy wrap of every small word sequence is accepted (not vacuous, not over-strict); help and error documents of definitions with grammar-generated texts are rendered at 25 (quick) / 300 (thorough) widths and every rendering and short form is validated by TLC.",
+ "C13": ("exploration", "Wrap.tla is an acceptor of console renderings (content with whitespace removed equals the unwrapped rendering; for widths >= 40 every line fits in width+2, is preformatted, or holds a single word after its indentation/definition term); WrapDesign model-checks that the greedy wrap of every small word sequence is accepted (not vacuous, not over-strict); help and error documents of definitions with grammar-generated texts are rendered at 25 (quick) / 300 (thorough) widths and every rendering and short form is validated by TLC (the short form must equal the full form without the later paragraphs, token for token; help texts are also given as Docs of several styled / embedded fragments); a real process built with `.max_width(w)` must print exactly the Display rendering at width w.",
          "TLA+ acceptor Wrap.tla (design-checked by WrapDesign) validating lexed real renderings at many widths", "6 (C13)"),
  "C15": ("exploration", "ShellWords.tla models shell word lexing (quotes, escapes, operators, active characters), bpaf's directive templates for zsh and bash and the line protocol of fish/elvish; ShellDesign model-checks that bpaf's quoting of every short hostile string lexes back to exactly one inert word; every completion output for revisions 1/7/8/9 (with and without a name) over hostile typed words, help texts, masks, groups and completer values is lexed and judged by TLC against the candidates computed at revision 0 (directives well-formed, data words inert, each candidate and file completer exactly once); a sample of bash outputs is sourced in a sandboxed real bash with stubs and canaries.",
          "TLA+ lexer/template acceptor ShellWords.tla (design-checked) validating real completion outputs; bash sandbox with canaries", "6 (C15)"),
  "C17": ("translation_validation", "Derive.tla states the documented derive rules as a function from a type definition to the definition of the hand-written equivalent (TLC checks it is total and well-formed on the family and prints the result); a generated crate contains the #[derive(Bpaf)] types; for every type TLC enumerates all lines up to the bound for the derived definition (CmdLine/GroupLine) and the derived parser, the hand-written parser built from that definition and the specification's outcome must agree on value, failure class and help/error text.",
          "TLA+ derive rules (Derive.tla) evaluated by TLC; differential run derived vs hand-written vs TLA+ outcome on TLC-enumerated lines", "6 (C17)"),
- "C04": ("exploration", "History.tla: one OptionParser object, calls identified by operation + arguments, Answer enabled only for an allowed result class and, when the call was made before, the identical result (design-checked on a tiny universe); sessions of parse/help/completion (revisions 0/1/7/8/9, with and without a name)/markdown/html/manpage calls over generic definitions (any, pure, choices, adjacent groups and commands, hidden items, control characters) and byte-grammar argument vectors run in a watched child process (hang and exit observable), every call repeated later; TLC validates every recorded call against History.tla.",
+ "C04": ("exploration", "History.tla: one OptionParser object, calls identified by operation + arguments, Answer enabled only for an allowed result class and, when the call was made before, the identical result (design-checked on a tiny universe); sessions of parse/help/completion (revisions 0/1/7/8/9, with and without a name)/markdown/html/manpage calls over generic definitions (any, pure, choices, adjacent groups and commands, hidden items, control characters) and byte-grammar argument vectors run in a watched child process (hang and exit observable), every call repeated later, text vectors also handed over through the `&[&str]` and `&[String]` entry points (which must agree); TLC validates every recorded call against History.tla; an apparent hang must repeat under a longer watchdog.",
          "TLA+ history protocol (History.tla, design-checked) validating recorded sessions; child process under a watchdog", "6 (C04)"),
 }
 NOTE = "Bounded: exhaustive within the stated constants, sampled beyond; trusted: TLC, the JSON reader, the dynamic builder (public bpaf API only)."
